@@ -556,7 +556,10 @@ func (s *Store) run(ctx context.Context, interval time.Duration, done chan<- str
 	defer close(done)
 
 	// Jitter polls by ±10% of the total interval to avert a thundering herd.
-	jitter := time.Duration(rand.Intn(2*int(interval)/10) - (int(interval) / 10))
+	var jitter time.Duration
+	if n := 2 * int(interval) / 10; n > 0 { // intervals under 5ns have no room for jitter
+		jitter = time.Duration(rand.Intn(n) - (int(interval) / 10))
+	}
 
 	t := s.newTicker(interval + jitter)
 	defer t.Stop()
